@@ -20,6 +20,44 @@ type freezeFlag struct {
 	field   int
 	name    string
 	setVals []*ssa.Const // the constants the gates store
+	bits    bool         // the gates set a bit of a flag set (flags |= K) instead of storing a value
+}
+
+// orIntoSame: val is (*addr) | K (either order) for a non-zero constant K — setting bits of the set kept at addr.
+func orIntoSame(addr, val ssa.Value) (*ssa.Const, bool) {
+	bo, ok := val.(*ssa.BinOp)
+	if !ok || bo.Op != token.OR {
+		return nil, false
+	}
+	for _, pr := range [][2]ssa.Value{{bo.X, bo.Y}, {bo.Y, bo.X}} {
+		ld, ok := pr[0].(*ssa.UnOp)
+		if !ok || ld.Op != token.MUL || !sameFieldAddr(ld.X, addr) {
+			continue
+		}
+		if k, ok := nonZeroConst(pr[1]); ok && k.Value.Kind() == constant.Int {
+			return k, true
+		}
+	}
+	return nil, false
+}
+
+// sameFieldAddr: the two addresses are the same field of the same object (the same value, or the same field
+// selected from the same pointer value).
+func sameFieldAddr(a, b ssa.Value) bool {
+	if a == b {
+		return true
+	}
+	fa, ok1 := a.(*ssa.FieldAddr)
+	fb, ok2 := b.(*ssa.FieldAddr)
+	if !ok1 || !ok2 || fa.Field != fb.Field {
+		return false
+	}
+	if fa.X == fb.X {
+		return true
+	}
+	// both select from a load of the same place (t.nameSpace read twice without a store in between is not
+	// assumed: only the identical load counts)
+	return false
 }
 
 func isNameSpacePtr(t types.Type) bool {
@@ -49,6 +87,7 @@ func nonZeroConst(v ssa.Value) (*ssa.Const, bool) {
 // discoverFreezeFlag: the field of nameSpace that every execution gate stores a non-zero constant into.
 func discoverFreezeFlag(p *Program) *freezeFlag {
 	var ff *freezeFlag
+	nPlain, nBits := 0, 0
 	for _, name := range []string{"(*Template).escape", "(*Template).lookupAndEscapeTemplate"} {
 		f := p.Func("template", name)
 		if f == nil {
@@ -67,6 +106,10 @@ func discoverFreezeFlag(p *Program) *freezeFlag {
 				}
 				if k, ok := nonZeroConst(st.Val); ok {
 					fields[fa.Field] = append(fields[fa.Field], k)
+					nPlain++
+				} else if k, ok := orIntoSame(st.Addr, st.Val); ok {
+					fields[fa.Field] = append(fields[fa.Field], k)
+					nBits++
 				}
 			}
 		}
@@ -81,6 +124,18 @@ func discoverFreezeFlag(p *Program) *freezeFlag {
 			}
 			ff.setVals = append(ff.setVals, ks...)
 		}
+	}
+	if ff != nil && nBits > 0 {
+		// a bit of a set: every gate sets the same bit, and none stores a whole value
+		if nPlain > 0 {
+			return nil
+		}
+		for _, k := range ff.setVals[1:] {
+			if !constant.Compare(k.Value, token.EQL, ff.setVals[0].Value) {
+				return nil
+			}
+		}
+		ff.bits = true
 	}
 	if ff != nil {
 		if sp := p.SSAPkg("template"); sp != nil {
@@ -118,7 +173,11 @@ func (ff *freezeFlag) setStores(f *ssa.Function) []*ssa.Store {
 	for _, b := range f.Blocks {
 		for _, in := range b.Instrs {
 			if st, ok := in.(*ssa.Store); ok && ff.isFlagAddr(st.Addr) {
-				if _, ok := nonZeroConst(st.Val); ok {
+				if ff.bits {
+					if k, ok := orIntoSame(st.Addr, st.Val); ok && constant.Compare(k.Value, token.EQL, ff.setVals[0].Value) {
+						out = append(out, st)
+					}
+				} else if _, ok := nonZeroConst(st.Val); ok {
 					out = append(out, st)
 				}
 			}
@@ -181,17 +240,96 @@ func (ff *freezeFlag) meaning(av atomVal, val bool) (set, unset bool) {
 			}
 		}
 	}
-	if load == nil {
+	// an accessor that is handed the name space itself (ns.frozen(), ns.has(bit)): the name space is a record
+	// whose flag field holds the value under evaluation and whose other fields are unknown
+	var cur *ssa.Const
+	opaque := func(v ssa.Value) (cval, bool) {
+		if prm, ok := v.(*ssa.Parameter); ok {
+			// a parameter of a spliced helper that a constant was passed for
+			var a ssa.Value = prm
+			for i := 0; i < 4; i++ {
+				w, ok := av.bind[a]
+				if !ok {
+					break
+				}
+				a = w
+			}
+			if k, ok := a.(*ssa.Const); ok && k.Value != nil {
+				switch k.Value.Kind() {
+				case constant.Bool:
+					return cval{kind: cvBool, b: constant.BoolVal(k.Value)}, true
+				case constant.Int:
+					n, ok := constant.Int64Val(k.Value)
+					return cval{kind: cvInt, i: n}, ok
+				}
+			}
+		}
+		if !isNameSpacePtr(v.Type()) || cur == nil {
+			return cval{}, false
+		}
+		st, ok := v.Type().Underlying().(*types.Pointer).Elem().Underlying().(*types.Struct)
+		if !ok || ff.field >= st.NumFields() {
+			return cval{}, false
+		}
+		rec := cval{kind: cvStruct, elems: make([]cval, st.NumFields())}
+		for i := range rec.elems {
+			rec.elems[i] = cval{kind: cvNil}
+		}
+		fv, ok := zeroOf(st.Field(ff.field).Type())
+		if !ok {
+			return cval{}, false
+		}
+		if cur.Value != nil {
+			switch cur.Value.Kind() {
+			case constant.Bool:
+				fv = cval{kind: cvBool, b: constant.BoolVal(cur.Value)}
+			case constant.Int:
+				n, _ := constant.Int64Val(cur.Value)
+				fv = cval{kind: cvInt, i: wrapInt(n, st.Field(ff.field).Type())}
+			}
+		}
+		rec.elems[ff.field] = fv
+		return cval{kind: cvRef, cell: &ccell{v: rec}, idx: -1}, true
+	}
+	var flagType types.Type
+	if load != nil {
+		flagType = load.Type()
+	} else if nsArg := nameSpaceArg(cond, 0); nsArg != nil {
+		if st, ok := nsArg.Type().Underlying().(*types.Pointer).Elem().Underlying().(*types.Struct); ok && ff.field < st.NumFields() {
+			flagType = st.Field(ff.field).Type()
+		}
+	}
+	if flagType == nil {
 		return false, false
 	}
-	zero := ssa.NewConst(nil, load.Type())
-	vz, ok := evalModeCond(ff.p, cond, load, zero, 0)
+	evalFor := func(k *ssa.Const) (cval, bool) {
+		cur = k
+		return evalModeCondX(ff.p, cond, load, k, 0, opaque)
+	}
+	zero := ssa.NewConst(nil, flagType)
+	vz, ok := evalFor(zero)
 	if !ok || vz.kind != cvBool {
 		return false, false
 	}
+	if ff.bits {
+		// the condition must be a function of the bit alone: the same for {bit} and for every bit, the same
+		// for no bit and for every other bit
+		kv, _ := constant.Int64Val(ff.setVals[0].Value)
+		others := ssa.NewConst(constant.MakeInt64(wrapInt(^kv, flagType)), flagType)
+		all := ssa.NewConst(constant.MakeInt64(wrapInt(-1, flagType)), flagType)
+		vo, ok1 := evalFor(others)
+		va, ok2 := evalFor(all)
+		if !ok1 || !ok2 || vo.kind != cvBool || va.kind != cvBool || vo.b != vz.b {
+			return false, false
+		}
+		vk, ok := evalFor(ff.setVals[0])
+		if !ok || vk.kind != cvBool || vk.b != va.b {
+			return false, false
+		}
+	}
 	allSet := true
 	for _, k := range ff.setVals {
-		vk, ok := evalModeCond(ff.p, cond, load, k, 0)
+		vk, ok := evalFor(k)
 		if !ok || vk.kind != cvBool {
 			return false, false
 		}
@@ -224,4 +362,133 @@ func (ff *freezeFlag) pathSaysFlag(pe *pathExplorer, pth *cfgPath, want bool) bo
 		}
 		return unset
 	})
+}
+
+// nameSpaceArg: a pointer to a name space among the arguments of the call(s) the condition is computed from.
+func nameSpaceArg(v ssa.Value, depth int) ssa.Value {
+	if depth > 4 {
+		return nil
+	}
+	switch x := v.(type) {
+	case *ssa.UnOp:
+		if x.Op == token.NOT {
+			return nameSpaceArg(x.X, depth+1)
+		}
+	case *ssa.BinOp:
+		if a := nameSpaceArg(x.X, depth+1); a != nil {
+			return a
+		}
+		return nameSpaceArg(x.Y, depth+1)
+	case *ssa.Call:
+		if staticCallee(x.Common()) == nil {
+			return nil
+		}
+		for _, a := range x.Common().Args {
+			if isNameSpacePtr(a.Type()) {
+				return a
+			}
+		}
+	}
+	return nil
+}
+
+// checkFlagMonotone: once set, the freeze flag stays set. Every store into the flag field of a name space that
+// was not allocated in the storing function keeps it set (the set value itself; for a bit set, an update that
+// keeps the bit), no such name space is overwritten as a whole, and the address of the flag is not handed out.
+func checkFlagMonotone(p *Program, r *Report, ff *freezeFlag, rule string) {
+	tsp := p.SSAPkg("template")
+	if ff == nil || tsp == nil {
+		r.Undec(rule, "template.nameSpace#freeze-flag-kept", "", "the freeze flag was not identified")
+		return
+	}
+	keeps := func(st *ssa.Store) (bool, string) {
+		if !ff.bits {
+			if _, ok := nonZeroConst(st.Val); ok {
+				return true, ""
+			}
+			return false, "stores a value that is not the constant the execution gates store"
+		}
+		kv, _ := constant.Int64Val(ff.setVals[0].Value)
+		bo, ok := st.Val.(*ssa.BinOp)
+		if !ok {
+			return false, "overwrites the whole flag set"
+		}
+		for _, pr := range [][2]ssa.Value{{bo.X, bo.Y}, {bo.Y, bo.X}} {
+			ld, ok := pr[0].(*ssa.UnOp)
+			if !ok || ld.Op != token.MUL || !sameFieldAddr(ld.X, st.Addr) {
+				continue
+			}
+			switch bo.Op {
+			case token.OR:
+				return true, ""
+			case token.AND:
+				if n, ok := constInt(pr[1]); ok && int64(n)&kv == kv {
+					return true, ""
+				}
+				return false, "masks the flag set with a value that does not keep the freeze bit"
+			case token.AND_NOT:
+				if pr[0] == bo.X {
+					if n, ok := constInt(pr[1]); ok && int64(n)&kv == 0 {
+						return true, ""
+					}
+				}
+				return false, "clears bits of the flag set that may include the freeze bit"
+			}
+		}
+		return false, "overwrites the whole flag set"
+	}
+	for _, f := range p.SrcFuncs() {
+		if f.Pkg != tsp {
+			continue
+		}
+		cn := "template." + shortFn(f)
+		okAll, why, n := true, "", 0
+		var pos token.Pos
+		for _, b := range f.Blocks {
+			for _, in := range b.Instrs {
+				switch x := in.(type) {
+				case *ssa.Store:
+					if ff.isFlagAddr(x.Addr) {
+						if isFreshBase(x.Addr, 0) {
+							continue
+						}
+						n++
+						if ok, w := keeps(x); !ok {
+							okAll, why, pos = false, w, x.Pos()
+						}
+					} else if isNameSpacePtr(x.Addr.Type()) && !isFreshBase(x.Addr, 0) {
+						n++
+						okAll, why, pos = false, "overwrites a whole name space, and with it the flag", x.Pos()
+					}
+				case *ssa.FieldAddr:
+					if !ff.isFlagAddr(x) {
+						continue
+					}
+					for _, ref := range *x.Referrers() {
+						switch rr := ref.(type) {
+						case *ssa.Store:
+							if rr.Addr == ssa.Value(x) {
+								continue
+							}
+						case *ssa.UnOp:
+							if rr.Op == token.MUL {
+								continue
+							}
+						case *ssa.DebugRef:
+							continue
+						}
+						n++
+						okAll, why, pos = false, "hands out the address of the flag", x.Pos()
+					}
+				}
+			}
+		}
+		if n == 0 {
+			continue
+		}
+		if pos == token.NoPos {
+			pos = f.Pos()
+		}
+		r.Check(okAll, rule, cn+"#freeze-flag-kept", p.Pos(pos), "every store into the freeze flag ("+ff.name+") of a shared name space keeps it set", "the freeze flag of a name space that may already have been executed can be cleared here ("+why+"): Parse, AddParseTree and Clone are accepted again after the first execution, on trees the escaper has already rewritten")
+	}
 }
